@@ -63,7 +63,8 @@ Definition sobserve (a : @sgraph L) : list (list Z) :=
     flat_map (fun e => map (fun l => zbool (match lfind e (se a) with Some l' => leqb (if has_store then l' else ldef) l | None => false end)) lalpha) (pairs n);
     map (fun j => zn (sin a j)) vs ++ map (fun j => zn (sin a j)) vs ++ map (fun i => zn (sout a i)) vs;
     map (fun e => zn (if smem e a then 1 else 0)) (pairs n);
-    zn (length (se a)) :: map (fun e => zn (if smem e a then 1 else 0)) (pairs n) ].
+    zn (length (se a)) :: map (fun e => zn (if smem e a then 1 else 0)) (pairs n);
+    map Z.of_nat (seq 0 n) ++ [1; 1; zbool (Nat.eqb (length (se a)) 0)] ].
 (* per call: Some (how it must end :: observations) when the property has an opinion, None otherwise (forced calls) *)
 Definition rejected_code (a : @sgraph L) (o : @dop L) : option Z :=
   let oor := Some (zexn OutOfRange) in let inv := Some (zexn InvalidArgument) in
